@@ -41,31 +41,81 @@ def leafOf (w : String) : Option Ty :=
     | [c, _, 'x', _, m] => if m == 'r' || m == 'c' then (scalarOf c).map fun _ => .other .Matrix else none
     | _ => none
 
+def natOfChars (cs : List Char) : Option Nat :=
+  if cs.isEmpty then none else cs.foldlM (fun acc c => (digit? c).map fun d => acc * 10 + d) 0
+
+/-- `$k` / `c$k`: the type named by entry `k` of the request's type table; `true` = with `const` in front -/
+def refOf? (w : String) : Option (Nat × Bool) :=
+  match w.toList with
+  | '$' :: r => (natOfChars r).map fun k => (k, false)
+  | 'c' :: '$' :: r => (natOfChars r).map fun k => (k, true)
+  | _ => none
+
+/- `tab` = the (expanded) earlier entries of the type table: the model's types are structures, a reference is
+   replaced by what it names (`get_type_layout` has no state that could tell a shared struct from a copy:
+   `Thm.C19.layout_functions_are_pure`). -/
 mutual
-partial def parseTy : List String → Option (Ty × List String)
+partial def parseTy (tab : List Ty) : List String → Option (Ty × List String)
   | "{" :: r => do
-    let (ms, r) ← parseMembers r
+    let (ms, r) ← parseMembers tab r
     pure (.struct (Tys.ofList ms), r)
   | "[" :: n :: r => do
     let n ← n.toNat?
-    let (t, r) ← parseTy r
+    let (t, r) ← parseTy tab r
     match r with
     | "]" :: r => pure (.arr t n, r)
     | _ => none
-  | w :: r => (leafOf w).map fun t => (t, r)
+  | w :: r =>
+    match refOf? w with
+    -- `const` is not a valid modifier of a field: `c$k` only as a whole entry (`parseEntry`)
+    | some (k, false) => (tab[k]?).map fun t => (t, r)
+    | some (_, true) => none
+    | none => (leafOf w).map fun t => (t, r)
   | [] => none
-partial def parseMembers : List String → Option (List Ty × List String)
+partial def parseMembers (tab : List Ty) : List String → Option (List Ty × List String)
   | "}" :: r => some ([], r)
   | r => do
-    let (t, r) ← parseTy r
-    let (ts, r) ← parseMembers r
+    let (t, r) ← parseTy tab r
+    let (ts, r) ← parseMembers tab r
     pure (t :: ts, r)
 end
 
 def parseType (s : String) : Option Ty :=
-  match parseTy (tokens s) with
+  match parseTy [] (tokens s) with
   | some (t, []) => some t
   | _ => none
+
+/-- one entry of a `C19.prog` type table, given the earlier entries -/
+def parseEntry (tab : List Ty) (s : String) : Option Ty :=
+  match tokens s with
+  | [w] =>
+    match refOf? w with
+    | some (k, _) => tab[k]?
+    | none => (leafOf w)
+  | toks =>
+    match parseTy tab toks with
+    | some (t, []) => some t
+    | _ => none
+
+def parseTable (strs : List String) : Option (List Ty) :=
+  let rec go : List String → List Ty → Option (List Ty)
+    | [], acc => some acc
+    | s :: rest, acc =>
+      match parseEntry acc s with
+      | some t => go rest (acc ++ [t])
+      | none => none
+  go strs []
+
+mutual
+def mentionsVoid : Ty → Bool
+  | .other .Void => true
+  | .arr t _ => mentionsVoid t
+  | .struct ms => mentionsVoidMembers ms
+  | _ => false
+def mentionsVoidMembers : Tys → Bool
+  | .nil => false
+  | .cons t ts => mentionsVoid t || mentionsVoidMembers ts
+end
 
 def isStruct : Ty → Bool
   | .struct _ => true
@@ -96,21 +146,60 @@ open RsslVerif.Model.LayoutCollect
 def mentionsDefinition (toks : List String) : Bool :=
   toks.any fun w => w == "{" || w == "ei" || w == "eu"
 
-/-- the key under which the type registry interns a type of the request: its position for anything that
-    defines a struct / enum, its (modifier-free) spelling otherwise -/
-def typeKey (k : Nat) (s : String) : String :=
-  let toks := tokens s
-  if mentionsDefinition toks then "#" ++ toString k
-  else " ".intercalate (toks.map fun w =>
-    match w.toList with
-    | [a, b, 'x', d, _] => String.ofList [a, b, 'x', d]
-    | _ => w)
+def constKey (key : String) : String := if key.startsWith "c" then key else "c" ++ key
 
-/-- type id of the `k`-th type of the request: the first position with the same key -/
+/-- the key under which the type registry interns a type of the request: its position for anything that
+    defines a struct / enum, its (modifier-free) spelling otherwise (a `$j` inside stands for entry `j`'s key);
+    an entry that is just `$j` is another name of entry `j` (a typedef: the same type id), `c$j` is the
+    const-qualified entry `j` (a type id of its own, the same for every spelling of it); `keys` = the keys of the earlier entries -/
+def typeKey (keys : List String) (k : Nat) (s : String) : String :=
+  let toks := tokens s
+  let whole : Option String :=
+    match toks with
+    | [w] => (refOf? w).map fun (j, c) => let kj := keys.getD j "?"; if c then constKey kj else kj
+    | _ => none
+  match whole with
+  | some key => key
+  | none =>
+    if mentionsDefinition toks then "#" ++ toString k
+    else " ".intercalate (toks.map fun w =>
+      match refOf? w with
+      | some (j, _) => "(" ++ keys.getD j "?" ++ ")"
+      | none =>
+        match w.toList with
+        | [a, b, 'x', d, _] => String.ofList [a, b, 'x', d]
+        | _ => w)
+
+def tableKeys (strs : List String) : List String :=
+  let rec go : List String → Nat → List String → List String
+    | [], _, acc => acc
+    | s :: rest, k, acc => go rest (k + 1) (acc ++ [typeKey acc k s])
+  go strs 0 []
+
+def constIdBase : Nat := 1000000
+
+/-- type id of the `k`-th type of the request: the first position with the same key; a const-qualified type
+    gets `constIdBase +` the id of the type below the qualifier -/
 def typeId (keys : List String) (k : Nat) : Nat :=
   match keys[k]? with
   | none => k
-  | some key => (keys.findIdx? (· == key)).getD k
+  | some key =>
+    if key.startsWith "c" then
+      let base := String.ofList (key.toList.drop 1)
+      constIdBase + (keys.findIdx? (· == base)).getD k
+    else (keys.findIdx? (· == key)).getD k
+
+def constId (id : Nat) : Nat := if id ≥ constIdBase then id else id + constIdBase
+
+/-- `T<id>` of a const-qualified type is the location of the struct below the qualifier (`get_type_location`
+    removes the modifier) -/
+def fixLoc (loc : String) : String :=
+  match loc.toList with
+  | 'T' :: r =>
+    match natOfChars r with
+    | some n => if n ≥ constIdBase then "T" ++ toString (n - constIdBase) else loc
+    | none => loc
+  | _ => loc
 
 structure PSite where
   kind : String
@@ -144,7 +233,7 @@ def globalOf (kind : String) (r : TyRef) : Option GTy :=
   if kind == "sb" || kind == "sbtd" || kind == "sbreg" then some sb
   else if kind == "rwsb" then some rwsb
   -- `const StructuredBuffer<const S>`: the element is the type id of `const S`, not of `S`
-  else if kind == "sbc" then some (.modifier (.object "StructuredBuffer" (some ⟨r.id + 1000000, r.ty⟩)))
+  else if kind == "sbc" then some (.modifier (.object "StructuredBuffer" (some ⟨constId r.id, r.ty⟩)))
   else if kind == "sbarr" || kind == "sbarru" || kind == "sbbl" then some (.array sb)
   else if kind == "rwsbarr" then some (.array rwsb)
   else if kind == "sbarr2" then some (.array (.array sb))
@@ -186,9 +275,9 @@ def moduleOf (refs : List TyRef) (sites : List PSite) : Module :=
 
 def showProgVerdict (entries : List Entry) : Verdict → String
   | .ok => "ok"
-  | .unknown i => "unknown@" ++ ((entries[i]?).map (·.loc)).getD "?"
+  | .unknown i => "unknown@" ++ fixLoc (((entries[i]?).map (·.loc)).getD "?")
   | .mismatch i h m =>
-    "mismatch@" ++ ((entries[i]?).map (·.loc)).getD "?" ++ " hlsl=" ++ toString h.size ++ "/" ++ toString h.align ++
+    "mismatch@" ++ fixLoc (((entries[i]?).map (·.loc)).getD "?") ++ " hlsl=" ++ toString h.size ++ "/" ++ toString h.align ++
       " metal=" ++ toString m.size ++ "/" ++ toString m.align
   | .panic msg => "panic:" ++ msg
 
@@ -200,7 +289,7 @@ def handleProg (head tys sites : String) : String :=
       let tyStrs := tys.splitOn ";"
       -- a type name the language does not have: the front end reports it
       if tyStrs.any fun s => (tokens s).any fun w => w.startsWith "?" then "error" else
-      match sequenceOpt (tyStrs.map parseType), sequenceOpt ((sites.splitOn ",").map parseSite) with
+      match parseTable tyStrs, sequenceOpt ((sites.splitOn ",").map parseSite) with
       | some ts, some ss =>
         if ss.any fun s => s.ty ≥ ts.length ||
             !(if s.wrap == "" then globalKinds.contains s.kind else fnKinds.contains s.kind && wraps.contains s.wrap) ||
@@ -208,14 +297,14 @@ def handleProg (head tys sites : String) : String :=
             (s.wrap == "ex" && !["bload", "bload2", "rwbload", "rwbload2", "baload", "rwbaload"].contains s.kind)
         then "bad-request"
         -- `void` only as the whole type argument of a typed load that is type checked
-        else if tyStrs.zipIdx.any fun (str, k) =>
-            (tokens str).contains "v" &&
+        else if (tyStrs.zip ts).zipIdx.any fun ((str, t), k) =>
+            mentionsVoid t &&
               !(tokens str == ["v"] && (ss.filter fun s => s.ty == k).all fun s =>
                   ["bload", "bload2", "rwbload", "rwbload2", "baload", "rwbaload"].contains s.kind &&
                   ["m", "u", "me", "p", "a"].contains s.wrap)
         then "bad-request"
         else
-          let keys := tyStrs.zipIdx.map fun (s, k) => typeKey k s
+          let keys := tableKeys tyStrs
           let refs := ts.zipIdx.map fun (t, k) => (⟨typeId keys k, t⟩ : TyRef)
           let m := moduleOf refs ss
           match collect m with
